@@ -74,7 +74,9 @@ def cases(tier, seed):
                 cfg = {'kind': kind, 'prog_seed': seed * 1000003 + 120000 + ci,
                        'seed': seed * 7919 + ci, 'family': '1d' if ci % 2 == 0 else '2d',
                        'fold': ci % 5 == 0, 'full_cost': ci % 2 == 1, 'train': train,
-                       'gumbel': False, 'hard': ci % 3 == 0,
+                       # Gumbel noise: every forward of the history / of the observation is seeded,
+                       # the observers themselves must not disturb the stored sample
+                       'gumbel': kind != 'pit' and (ci // 3) % 4 == 3, 'hard': ci % 3 == 0,
                        # MPS: one convolution excluded from the search, plain params/ops metrics
                        'mps_exclude': kind.startswith('mps') and (ci // 2) % 2 == 1}
                 cs.append({'cfg': cfg, 'seqs': allseq[i:i + chunk], 'seed': seed * 104729 + ci})
@@ -122,8 +124,9 @@ def run_case(case, ctx):
             ctx.skip('build: ' + type(e).__name__ + ': ' + str(e)[:80])
             return
         rng = random.Random(case['seed'])
-        nasfactory.randomize_nas_params(M['nas'], random.Random(case['seed']))
-        nasfactory.randomize_nas_params(T['nas'], random.Random(case['seed']))
+        prune = kind == 'pit' and case['seed'] % 2 == 0     # PIT: masks pruned for real
+        nasfactory.randomize_nas_params(M['nas'], random.Random(case['seed']), prune=prune)
+        nasfactory.randomize_nas_params(T['nas'], random.Random(case['seed']), prune=prune)
         # mixed training flags (e.g. BatchNorm statistics frozen during a train-mode search):
         # observers must preserve the flag of every sub-module, not only the global mode
         if case['cfg']['train'] and case['seed'] % 2 == 0:
@@ -133,11 +136,6 @@ def run_case(case, ctx):
                     if n_ and (isinstance(sub, (torch.nn.BatchNorm1d, torch.nn.BatchNorm2d,
                                                  torch.nn.Dropout)) or frng.random() < 0.15):
                         sub.training = False
-        # same warm-up forward on both
-        for m in (M, T):
-            torch.manual_seed(5)
-            with torch.no_grad():
-                m['nas'](*m['xs'])
         d0 = {'kind': kind, 'sequence': seq, 'train': case['cfg']['train'],
               'full_cost': case['cfg']['full_cost'], 'fold': case['cfg'].get('fold')}
         pre = snapshot.diff(snapshot.observe(M['nas'], M['xs'], M['cost_names'], with_export=False,
@@ -147,6 +145,11 @@ def run_case(case, ctx):
         if pre:
             ctx.error('twins-differ-before-history', RuntimeError(str(pre[:5])))
             return
+        # same warm-up forward on both, in grad mode: the coefficients it samples carry the autograd
+        # graph a search step differentiates the cost through
+        for m in (M, T):
+            torch.manual_seed(5)
+            m['nas'](*m['xs'])
         rec = {'exports': [], 'exports_nobn': [], 'switch': []}
         crashed = False
         for op in seq:
@@ -162,10 +165,18 @@ def run_case(case, ctx):
         if crashed:
             continue
         # ---- twin snapshots ------------------------------------------------------------------------
-        sm = snapshot.observe(M['nas'], M['xs'], M['cost_names'], with_export=False)
-        st = snapshot.observe(T['nas'], T['xs'], T['cost_names'], with_export=False)
+        # (first "as is": the cost of the stored sample, whether it is still differentiable and its
+        # gradient w.r.t. the architectural parameters - what a search step that calls
+        # loss.backward() right after the observer calls would use)
+        sm = snapshot.observe(M['nas'], M['xs'], M['cost_names'], with_export=False,
+                              as_is=('cost',))
+        st = snapshot.observe(T['nas'], T['xs'], T['cost_names'], with_export=False,
+                              as_is=('cost',))
         ctx.mon('c18.twin_snapshot')
-        df = snapshot.diff(sm, st)
+        df = snapshot.as_is_loss(sm, st)
+        sm.pop('as_is', None)
+        st.pop('as_is', None)
+        df += snapshot.diff(sm, st)
         if df:
             groups = snapshot.summarize_diff(df, 5)
             ctx.violation('model-changed', dict(
